@@ -16,19 +16,17 @@ for u in payload['universes']:
     import wn._add
     wn._add.BATCH_SIZE = u.get('batch_size') or payload.get('default_batch_size', 1000)
     with iutil.FreshDB() as db:
+        if u.get('churn'):
+            # an unrelated lexicon is added, looked at and removed first: the real lexicons then reuse its rowids
+            battery.add_resource(db, 'zz_churn', u['churn'], None)
+            battery.touch_everything()
+            wn.remove('*', progress_handler=None)
         for i, (name, res) in enumerate(u['resources']):
             r = battery.call(battery.add_resource, db, name, res, u.get('style_seed'))
             rec['adds'].append([name, r[0] if r[0] == 'ok' else r])
             if u.get('interleave'):
                 # queries between the adds (default mode and restricted), results discarded
-                try:
-                    for x in wn.words():
-                        for s_ in x.senses():
-                            s_.examples(); s_.synset().senses()
-                    for lx in wn.lexicons():
-                        wn.Wordnet(lx.specifier()).synsets()
-                except Exception:
-                    pass
+                battery.touch_everything()
         if u.get('want_tables', True):
             rec['tables'] = battery.dump_tables()
         rec['lexicons'] = battery.lexicon_rows()
